@@ -88,14 +88,14 @@ check("C05", "TLA+ intent function LasRead!Read over the TLC-enumerated family C
 check("C06", "TLA+ NULL rule (LasRead!CellOut) over the TLC-enumerated family C06 (all class masks x text column x policy x NULL "
       "present x wrapped); six NULL values and their spellings; Trace_Read (TLC) compares both engines' results with the model",
       READ, TRUSTED, "DESIGN.md 4 C06")
-check("C07", "TLA+ column binding (LasRead!Curves) over the TLC-enumerated family C07 (d, c, r, decorations, wrapped layouts); cells "
-      "carry their coordinates; Trace_Read (TLC) compares both engines' results with the model",
+check("C07", "TLA+ column binding (LasRead!Curves) over the TLC-enumerated family C07 (d, c, r, decorations, wrapped layouts, 21..101-row and 11..24-column blocks); cells "
+      "carry their coordinates; every key must address its own curve and las.data column j must be curve j; Trace_Read (TLC) compares both engines' results with the model",
       READ, TRUSTED, "DESIGN.md 4 C07")
 check("C19", "TLA+ intent function LasRead!Read with junk lines over the TLC-enumerated family C19 (every insertion site, one or two "
       "junk lines, flag on/off) x pooled and seeded random junk; Trace_Read (TLC): no exception with the flag, genuine items kept, "
       "only LASHeaderError naming a junk line without it",
       READ, TRUSTED, "DESIGN.md 4 C19")
-check("C09", "Presentation.tla (TLC): transformations as actions, invariant Read unchanged; every reachable transformed text "
+check("C09", "Presentation.tla (TLC): transformations as actions (single and bulk insertion of blank/comment lines, re-wrapping), invariant Read unchanged; every reachable transformed text "
       "concretised with fresh presentation choices and compared with its base on real lasio (Trace_Read + Trace_Presentation); "
       "corpus and writer output under seeded concrete transformations (Trace_Presentation)",
       "Model checking + metamorphic trace validation: TLC proves on the model that inserting blank/comment lines outside ~Other "
@@ -124,7 +124,7 @@ RT = ("Model checking + trace validation: the algorithm-layer module WriteLayout
       "and writer order tables agree for every spelling/version/case -- the pre-repair variants are shown to fail), the "
       "instance space is enumerated by TLC (WriteInstances) and every instance is executed on real lasio; Trace_RoundTrip "
       "(TLC) judges the logged observation clause by clause. ")
-check("C01", "WriteLayout (TLC) for the wrapped-layout arithmetic; WriteInstances family C01 (46 000 option tuples, TLC) written and "
+check("C01", "WriteLayout (TLC) for the wrapped-layout arithmetic; WriteInstances family C01 (56 000 option tuples incl. 256..4096-row blocks, TLC) written and "
       "re-read by real lasio; per-sample printed-precision verdicts validated by Trace_RoundTrip",
       RT + "C01: curve count, mnemonic order, row count, every finite sample within half a unit of the last printed digit, "
       "every NaN off the index back as NaN, index never nulled.", TRUSTED, "DESIGN.md 4 C01")
